@@ -537,44 +537,77 @@ func c02TaskRun(c *Ctx, r *Result, fn *ssa.Function, monIface, procIface *types.
 				Msg: key + ": the monitor is finished before (not dominated by) ProcessEvent: the cascade can be reported finished while the event's actions still run"})
 		}
 	}
+	// path by path (a single exit returning a variable is the same as several returns): what is
+	// returned on the path, and whether Finish was called on it
+	isFin := map[ssa.Instruction]bool{}
+	for _, f := range fins {
+		isFin[f] = true
+	}
+	type verdict struct {
+		bad, ok string
+	}
+	per := map[*ssa.Return]*verdict{}
+	undec := ""
+	o := &PathOracle{}
+	o.Visit = func(st *PState, in ssa.Instruction) {
+		if isFin[in] {
+			st.Flags["finished"] = true
+		}
+	}
+	o.AtReturn = func(st *PState, ret *ssa.Return) {
+		if len(ret.Results) != 1 {
+			return
+		}
+		vd := per[ret]
+		if vd == nil {
+			vd = &verdict{}
+			per[ret] = vd
+		}
+		v := st.canon(ret.Results[0])
+		switch {
+		case isNilConst(v) || st.Get(v, o) == AvNil:
+			if st.Flags["finished"] {
+				vd.ok = "returns nil after Finish"
+			} else {
+				vd.bad = "nil-without-finish"
+			}
+		case isAllocLike(v):
+			if st.Flags["finished"] {
+				vd.bad = "error-after-finish"
+			} else if vd.ok == "" {
+				vd.ok = "returns a non-nil error without Finish (HandleError finishes)"
+			}
+		default:
+			undec = accessPath(v)
+		}
+	}
+	if !ExplorePaths(fn, o) {
+		r.Undecide("R02b-run: path exploration of %s exceeded its bound", key)
+		return
+	}
+	if undec != "" {
+		r.Undecide("R02b-run: %s returns a value that is neither nil nor a fresh error (%s)", key, undec)
+	}
 	nret := 0
 	allInstrs(fn, func(in ssa.Instruction) {
 		ret, ok := in.(*ssa.Return)
-		if !ok || in.Block() == fn.Recover || len(ret.Results) != 1 {
+		if !ok || in.Block() == fn.Recover || per[ret] == nil {
 			return
 		}
 		nret++
 		site := fmt.Sprintf("%s#return#%d", key, nret)
 		pos := c.Pos(c.InstrPos(in))
-		v := unspill(ret.Results[0])
-		finDom, finReach := false, false
-		for _, f := range fins {
-			if dominates(f, in) {
-				finDom = true
-			}
-			if canReach(f, in) {
-				finReach = true
-			}
-		}
-		switch {
-		case isNilConst(v):
-			if finDom {
-				r.Instance("R02b-run", site, pos, "ok", "returns nil after Finish", true)
-			} else {
-				r.Instance("R02b-run", site, pos, "finding", "nil return without Finish", true)
-				r.Report(Finding{Rule: "R02b-run", Site: site, Pos: pos,
-					Msg: key + ": returns nil on a path where the monitor's Finish is not certainly called: the monitor never finishes and the wait on its cascade never returns"})
-			}
-		case isAllocLike(v):
-			if finReach {
-				r.Instance("R02b-run", site, pos, "finding", "error return after Finish", true)
-				r.Report(Finding{Rule: "R02b-run", Site: site, Pos: pos,
-					Msg: key + ": returns an error on a path where Finish may already have been called: HandleError finishes the monitor a second time (assertion) or the waiter is released before the errors are attached"})
-			} else {
-				r.Instance("R02b-run", site, pos, "ok", "returns a non-nil error without Finish (HandleError finishes)", true)
-			}
+		switch per[ret].bad {
+		case "nil-without-finish":
+			r.Instance("R02b-run", site, pos, "finding", "nil return without Finish", true)
+			r.Report(Finding{Rule: "R02b-run", Site: site, Pos: pos,
+				Msg: key + ": returns nil on a path where the monitor's Finish is not called: the monitor never finishes and the wait on its cascade never returns"})
+		case "error-after-finish":
+			r.Instance("R02b-run", site, pos, "finding", "error return after Finish", true)
+			r.Report(Finding{Rule: "R02b-run", Site: site, Pos: pos,
+				Msg: key + ": returns an error on a path where Finish has already been called: HandleError finishes the monitor a second time (assertion) or the waiter is released before the errors are attached"})
 		default:
-			r.Undecide("R02b-run: %s returns a value that is neither nil nor a fresh error (%s)", key, accessPath(v))
+			r.Instance("R02b-run", site, pos, "ok", per[ret].ok, true)
 		}
 	})
 }
